@@ -822,7 +822,31 @@ class BuiltinMixin:
             return VBool(z3.SuffixOf(self.coerce(args[0], STR).t, s.t))
         if name == 'replace' and len(args) == 2:
             a, b = self.coerce(args[0], STR), self.coerce(args[1], STR)
-            return VStr(z3.ReplaceAll(s.t, a.t, b.t)) if hasattr(z3, 'ReplaceAll') else VStr(self.uf('str_replace_all', [z3.StringSort()] * 3, z3.StringSort())(s.t, a.t, b.t))
+            try:
+                pa, pb = py_const(a), py_const(b)
+            except KeyError:
+                pa = pb = None
+            try:
+                return VStrConst(py_const(s).replace(pa, pb)) if pa is not None else None
+            except KeyError:
+                pass
+            if pa is not None and len(pa) == 1:
+                # library model of str.replace for a one-character pattern: a homomorphism on concatenation
+                key = ('replace1', pa, pb)
+                if key not in ctx.str_fns:
+                    ctx.counter += 1
+                    R = z3.Function(f'replace_all_{ctx.counter}', z3.StringSort(), z3.StringSort())
+                    x, y = z3.String('x!r'), z3.String('y!r')
+                    A, B = z3.StringVal(pa), z3.StringVal(pb)
+                    ctx.axioms.append(z3.ForAll([x, y], R(z3.Concat(x, y)) == z3.Concat(R(x), R(y)), patterns=[R(z3.Concat(x, y))]))
+                    ctx.axioms.append(R(A) == B)
+                    ctx.axioms.append(z3.ForAll([x], z3.Implies(z3.Not(z3.Contains(x, A)), R(x) == x), patterns=[R(x)]))
+                    ctx.str_fns[key] = R
+                    ctx.assumptions.add('library model: str.replace(c, t) for a one-character c distributes over concatenation, maps c to t '
+                                        'and leaves strings without c unchanged')
+                return VStr(ctx.str_fns[key](s.t))
+            ctx.assumptions.add('library model: str.replace with a longer or symbolic pattern is an uninterpreted function')
+            return VStr(self.uf('str_replace_all', [z3.StringSort()] * 3, z3.StringSort())(s.t, a.t, b.t))
         if name in ('lower', 'upper', 'casefold', 'strip'):
             try:
                 return VStrConst(getattr(py_const(s), name)())
